@@ -57,25 +57,44 @@ Lemma counter_no_panic x : counter_of_number x <> Panic /\ counter_of_number x <
 Proof. destruct x; cbn [counter_of_number]; repeat case_match; split; discriminate. Qed.
 
 (* ------------------------------------------------------------------ the conversion loops *)
+Lemma sum_N_app a b : sum_N (a ++ b) = sum_N a + sum_N b.
+Proof. unfold sum_N. induction a as [|x a IH]; cbn [app fold_right]; [lia|]. rewrite IH. lia. Qed.
+(* iterated saturating_add from the entry's initial value = clamped total *)
 Lemma add_line_lines ls L B n :
-  (fold_left add_line ls (L, B)).1 !! n = match spec_jline ls n with Some c => Some c | None => L !! n end.
+  (fold_left add_line ls (L, B)).1 !! n =
+  match omap (jline_at n) ls with
+  | [] => L !! n
+  | cs => Some (N.min (default 0 (L !! n) + sum_N cs) U64_MAX)
+  end.
 Proof.
-  unfold spec_jline. induction ls as [|l ls IH] using rev_ind; [reflexivity|].
-  rewrite fold_left_app, omap_app, last_app. cbn [fold_left add_line fst omap list_omap]. unfold jline_at at 1.
-  destruct (N.eqb_spec (dl_number l) n) as [->|Hne]; cbn [last].
-  - rewrite lookup_insert. reflexivity.
-  - rewrite lookup_insert_ne by exact Hne. exact IH.
+  induction ls as [|l ls IH] using rev_ind; [reflexivity|].
+  rewrite fold_left_app, omap_app. cbn [fold_left add_line fst omap list_omap]. unfold jline_at at 2.
+  destruct (N.eqb_spec (dl_number l) n) as [E|Hne].
+  - rewrite E, lookup_insert, IH. unfold sat_add64.
+    destruct (omap (jline_at n) ls) as [|c cs]; cbn [app default].
+    + f_equal. unfold sum_N. cbn [fold_right]. lia.
+    + f_equal. change (c :: cs ++ [dl_count l]) with ((c :: cs) ++ [dl_count l]). rewrite sum_N_app.
+      unfold id. change (sum_N [dl_count l]) with (dl_count l + 0). lia.
+  - rewrite lookup_insert_ne by exact Hne. rewrite app_nil_r. exact IH.
 Qed.
 Lemma add_line_branches ls L B n :
-  (fold_left add_line ls (L, B)).2 !! n = match spec_jbranch ls n with Some c => Some c | None => B !! n end.
+  (fold_left add_line ls (L, B)).2 !! n =
+  match omap (jbranch_at n) ls with
+  | [] => B !! n
+  | vs => Some (default [] (B !! n) ++ concat vs)
+  end.
 Proof.
-  unfold spec_jbranch. induction ls as [|l ls IH] using rev_ind; [reflexivity|].
-  rewrite fold_left_app, omap_app, last_app. cbn [fold_left add_line snd omap list_omap]. unfold jbranch_at at 1.
+  induction ls as [|l ls IH] using rev_ind; [reflexivity|].
+  rewrite fold_left_app, omap_app. cbn [fold_left add_line snd omap list_omap]. unfold jbranch_at at 2.
   destruct (dl_branches l) as [|b bs] eqn:Eb.
-  - destruct (dl_number l =? n); cbn [last]; exact IH.
-  - destruct (N.eqb_spec (dl_number l) n) as [->|Hne]; cbn [last].
-    + apply lookup_insert.
-    + etrans; [apply lookup_insert_ne; exact Hne|]. exact IH.
+  - destruct (dl_number l =? n); rewrite app_nil_r; exact IH.
+  - destruct (N.eqb_spec (dl_number l) n) as [E|Hne].
+    + rewrite E. etrans; [apply lookup_insert|]. rewrite IH.
+      destruct (omap (jbranch_at n) ls) as [|v vs]; cbn [app default].
+      * cbn [concat]. rewrite app_nil_r. reflexivity.
+      * change (v :: vs ++ [map (fun c : N => 0 <? c) (b :: bs)]) with ((v :: vs) ++ [map (fun c : N => 0 <? c) (b :: bs)]).
+        rewrite concat_app. cbn [concat]. unfold id. rewrite app_nil_r, <- !app_assoc. reflexivity.
+    + etrans; [apply lookup_insert_ne; exact Hne|]. rewrite app_nil_r. exact IH.
 Qed.
 Lemma add_fun_lookup fs M g :
   fold_left add_fun fs M !! g = match spec_jfunc fs g with Some c => Some c | None => M !! g end.
@@ -105,8 +124,10 @@ Qed.
 Lemma jcov_spec f : jfile_spec f (jcov f).
 Proof.
   unfold jfile_spec, jcov. cbn [c_lines c_branches c_funcs]. split; [|split].
-  - intros n. rewrite add_line_lines, lookup_empty. destruct (spec_jline _ n); reflexivity.
-  - intros n. rewrite add_line_branches, lookup_empty. destruct (spec_jbranch _ n); reflexivity.
+  - intros n. rewrite add_line_lines, lookup_empty. unfold spec_jline. cbn [default].
+    destruct (omap (jline_at n) (dfile_lines f)); [reflexivity|]. rewrite N.add_0_l. reflexivity.
+  - intros n. rewrite add_line_branches, lookup_empty. unfold spec_jbranch. cbn [default app].
+    destruct (omap (jbranch_at n) (dfile_lines f)); reflexivity.
   - intros g. rewrite add_fun_lookup, lookup_empty. destruct (spec_jfunc _ g); reflexivity.
 Qed.
 Lemma conv_spec d : jreport_spec d (conv d).
@@ -182,14 +203,62 @@ Proof. destruct o; reflexivity. Qed.
 
 Lemma jfile_spec_line f c l :
   jfile_spec f c -> NoDup (map dl_number (dfile_lines f)) -> l ∈ dfile_lines f ->
-  c_lines c !! dl_number l = Some (dl_count l) /\
+  c_lines c !! dl_number l = Some (N.min (dl_count l) U64_MAX) /\
   c_branches c !! dl_number l = match dl_branches l with [] => None | b => Some (map (fun x => 0 <? x) b) end.
 Proof.
   intros (HL & HB & _) Hnd Hin. rewrite HL, HB. unfold spec_jline, spec_jbranch, jline_at, jbranch_at. split.
-  - rewrite (omap_unique dl_number (fun x => Some (dl_count x)) _ l Hnd Hin). reflexivity.
+  - rewrite (omap_unique dl_number (fun x => Some (dl_count x)) _ l Hnd Hin). change (option_list (Some (dl_count l))) with [dl_count l]. cbv iota.
+    change (sum_N [dl_count l]) with (dl_count l + 0). rewrite N.add_0_r. reflexivity.
   - rewrite (omap_unique dl_number (fun x => match dl_branches x with [] => None | b => Some (map (fun c => 0 <? c) b) end) _ l Hnd Hin).
-    apply last_option_list.
+    destruct (dl_branches l) as [|b bs]; [reflexivity|].
+    change (option_list (Some (map (fun c : N => 0 <? c) (b :: bs)))) with [map (fun c : N => 0 <? c) (b :: bs)]. cbv iota.
+    cbn [concat]. rewrite app_nil_r. reflexivity.
 Qed.
+(* the general clause, in the words of the property: the entries of line n in entry order *)
+Lemma omap_jline_entries n ls : omap (jline_at n) ls = map dl_count (entries_of n ls).
+Proof.
+  unfold entries_of. induction ls as [|l ls IH]; [reflexivity|]. rewrite filter_cons. cbn [omap list_omap]. unfold jline_at at 1.
+  destruct (N.eqb_spec (dl_number l) n) as [E|E].
+  - rewrite decide_True by exact E. cbn [map]. f_equal. exact IH.
+  - rewrite decide_False by exact E. exact IH.
+Qed.
+Lemma concat_omap_jbranch_entries n ls :
+  concat (omap (jbranch_at n) ls) = concat (map (fun l => map (fun c => 0 <? c) (dl_branches l)) (entries_of n ls)).
+Proof.
+  unfold entries_of. induction ls as [|l ls IH]; [reflexivity|]. rewrite filter_cons. cbn [omap list_omap]. unfold jbranch_at at 1.
+  destruct (N.eqb_spec (dl_number l) n) as [E|E].
+  - rewrite decide_True by exact E. cbn [map concat]. rewrite <- IH.
+    destruct (dl_branches l); cbn [map concat app]; reflexivity.
+  - rewrite decide_False by exact E. exact IH.
+Qed.
+Lemma jfile_spec_entries f c n :
+  jfile_spec f c ->
+  let es := entries_of n (dfile_lines f) in
+  c_lines c !! n = (match es with [] => None | _ => Some (N.min (sum_N (map dl_count es)) U64_MAX) end) /\
+  (es <> [] -> default [] (c_branches c !! n) = concat (map (fun l => map (fun x => 0 <? x) (dl_branches l)) es)) /\
+  (c_branches c !! n = None <-> Forall (fun l => dl_branches l = []) es).
+Proof.
+  intros (HL & HB & _) es. subst es. rewrite HL, HB. unfold spec_jline, spec_jbranch.
+  rewrite omap_jline_entries. split; [|split].
+  - destruct (entries_of n (dfile_lines f)); reflexivity.
+  - intros _. rewrite <- concat_omap_jbranch_entries. destruct (omap (jbranch_at n) (dfile_lines f)); reflexivity.
+  - clear HL HB. unfold entries_of. induction (dfile_lines f) as [|l ls IH]; [split; [constructor|reflexivity]|].
+    rewrite filter_cons. cbn [omap list_omap]. unfold jbranch_at at 1.
+    destruct (N.eqb_spec (dl_number l) n) as [E|E].
+    + rewrite decide_True by exact E. destruct (dl_branches l) as [|b bs] eqn:Eb.
+      * rewrite IH. split; [intros H; constructor; [exact Eb|exact H]|intros H; inversion H; assumption].
+      * split; [discriminate|]. intros H. inversion H as [|? ? H1 _]. rewrite Eb in H1. discriminate.
+    + rewrite decide_False by exact E. exact IH.
+Qed.
+
+(* regression: the fold used before the fix (last entry stands) differs on the witness of
+   C20/gcov-json-line-in-several-functions: `int f(..){..} int g(..){..}` on line 1, f run 3 times, g never *)
+Lemma old_fold_differs :
+  let new := fold_left add_line witness_two_functions_one_line (∅, ∅) in
+  let old := fold_left add_line_last_wins witness_two_functions_one_line (∅, ∅) in
+  new.1 !! 1 = Some 3 /\ old.1 !! 1 = Some 0 /\
+  new.2 !! 1 = Some [true; false; false; false] /\ old.2 !! 1 = Some [false; false].
+Proof. vm_compute. repeat split; reflexivity. Qed.
 Lemma jfile_spec_fun f c g :
   jfile_spec f c -> NoDup (map df_name (dfile_funs f)) -> g ∈ dfile_funs f ->
   c_funcs c !! df_name g = Some (mkFunc (df_start g) (0 <? df_count g)).
